@@ -94,8 +94,9 @@ class Run:
                     self.tokkinds[t[0]] = self.tokkinds.get(t[0], 0) + 1
             d = lu.compare(c, r)
             if d is not None:
-                cls, tok, text = d
-                self.disagree({"kind": "lex", "class": cls, "tok": tok, "universe": universe}, text, payload)
+                cls, tok, text, detail = d
+                self.disagree({"kind": "lex", "class": cls, "tok": tok, "detail": detail, "universe": universe},
+                              text, payload)
         chk.traces_validated += len(cases)
         return results
 
